@@ -685,6 +685,9 @@ class GroupBy:
                 # a null result (NaT) cannot be converted without a copy
                 arr = arrow.to_numpy(zero_copy_only=arrow.null_count == 0)
                 dtype = pd.ArrowDtype(arrow.type)
+            elif isinstance(orig_type, pa.DataType):
+                # arrow-backed input: keep the datetime64 array so that NaT becomes null
+                dtype = pd.ArrowDtype(orig_type)
             else:
                 arr = arr.view(int)
                 dtype = orig_type
